@@ -67,21 +67,24 @@ func parseTime(in string) (time.Time, error) {
 	var nsec int
 	if c == '.' || c == ',' {
 		remaining = remaining[1:]
-		// Fractional seconds!
-		var val, i int
-		var c rune
-		var mult int = 1e9
-		for i, c = range remaining {
-			if c >= '0' && c <= '9' {
-				val = val*10 + int(c-'0')
-				mult /= 10
-			} else {
-				i -= 1
-				break
+		// Fractional seconds! Nanoseconds are the first nine digits; any
+		// further digits are beyond our resolution and are dropped.
+		var val, digits, i int
+		for i < len(remaining) && remaining[i] >= '0' && remaining[i] <= '9' {
+			if digits < 9 {
+				val = val*10 + int(remaining[i]-'0')
+				digits++
 			}
+			i++
 		}
-		nsec = val * mult
-		remaining = remaining[i+1:]
+		if i == 0 {
+			return time.Time{}, fmt.Errorf("no digits after the fractional seconds separator")
+		}
+		for ; digits < 9; digits++ {
+			val *= 10
+		}
+		nsec = val
+		remaining = remaining[i:]
 		if len(remaining) == 0 {
 			return time.Time{}, fmt.Errorf("too short to contain timezone")
 		}
